@@ -247,15 +247,15 @@ def _merge(case, rec):
 
 def clauses():
     return [
-        Clause("convex_structure", _case(), _convex, quick=500, thorough=12000, rule="ConvexPolyhedron", floors={"nontriangular": 0.3}),
-        Clause("sort_faces", _case(14), _sort, quick=250, thorough=6000, rule="Polyhedron.sort_faces", floors={"faces_disordered": 0.4}),
-        Clause("merge_faces", _case(14), _merge, quick=250, thorough=6000, rule="Polyhedron.merge_faces",
+        Clause("convex_structure", _case(), _convex, quick=1500, thorough=12000, rule="ConvexPolyhedron", floors={"nontriangular": 0.3}),
+        Clause("sort_faces", _case(14), _sort, quick=750, thorough=6000, rule="Polyhedron.sort_faces", floors={"faces_disordered": 0.3}),
+        Clause("merge_faces", _case(14), _merge, quick=750, thorough=6000, rule="Polyhedron.merge_faces",
                floors={"nontriangular": 0.3, "winding:mixed": 0.25}),
-        Clause("sort_faces_far_from_origin", _case(12, True), _sort, quick=200, thorough=4000,
+        Clause("sort_faces_far_from_origin", _case(12, True), _sort, quick=600, thorough=4000,
                rule="sort_faces on shapes 1e3..3e6 diameters away from the origin", floors={}),
-        Clause("merge_faces_far_from_origin", _case(12, True), _merge, quick=200, thorough=4000,
+        Clause("merge_faces_far_from_origin", _case(12, True), _merge, quick=600, thorough=4000,
                rule="merge_faces on shapes 1e3..3e6 diameters away from the origin", floors={}),
-        Clause("convex_structure_far_from_origin", _case(14, True), _convex, quick=200, thorough=4000,
+        Clause("convex_structure_far_from_origin", _case(14, True), _convex, quick=600, thorough=4000,
                rule="ConvexPolyhedron 1e3..3e6 diameters away from the origin", floors={}),
     ]
 
